@@ -37,7 +37,7 @@ seeded changes and which check catches which in §11.
   invariants, ghost state, lemmas. One contract set, several back ends, strongest first:
   1. **Verus** (unbounded, deductive) on function text **extracted mechanically from `/repo/src` on every run**,
      rewritten only by a fixed, logged list of token-level rules (§2.2), with contracts merged in from side-car files in
-     `/verif/contracts/`. 19 units, ≈ 60 extracted items (functions, closures, types), ≈ 330 verified functions and lemmas (Verus's "verified"
+     `/verif/contracts/`. 20 units, ≈ 60 extracted items (functions, closures, types), ≈ 330 verified functions and lemmas (Verus's "verified"
      count) carrying ≈ 650 contract clauses, 1–4 s per unit.
   2. **Kani, loop-free / full domain** (complete): `ch_width(c) <= c.len_utf8()` for every `char`, both feature sets (K1).
   3. **Kani, bounded**: `wrap_first_fit` with bit-precise IEEE-754 floats, 3 fragments (K2, thorough tier of C07) — labelled *bounded*.
@@ -70,6 +70,7 @@ seeded changes and which check catches which in §11.
   | U18 | `refill::unfill` | indents are prefixes made of prefix characters; no inner line break; line-ending rule; all slices safe | C15, C04 |
   | U20 | `word_separators::find_words_unicode_break_properties` (three closures, R16) | the boundaries are exactly the kept UAX #14 opportunities (relative to the assumed shape of `unicode_linebreak::linebreaks`), one each, in order, mapped back outside escape sequences; words tile the line | C11, C13, C01 |
   | U21 | `refill::refill` | `refill(x, o2) == fill(unfill(x).text minus final ending, o2 with unfill(x)'s indents) ++ ending` | C16, C04 |
+  | U22 | `options.rs`: `Options::new`, `From<&Options>`, `From<usize>`, the eight setters | the by-reference conversion copies every option unchanged; documented defaults; each setter changes exactly its field | C09, C08, C02, C04 |
   | K1 | `core::ch_width` | `ch_width(c) <= c.len_utf8()` for all 1,112,064 scalar values (Kani, loop-free) | C10, C05, C04 |
 
 * **Genuine defects found and repaired** (five `fix:` commits in `/repo`, §5): F1 (C02), F2 (C08), F5 (C20/C04) were
@@ -284,7 +285,7 @@ repairs before they were committed.
   statements / conjuncts / declarations, flipped comparisons, inverted `if/else`, expanded `+=`, literal for const,
   `f64::max` call form): **0 false alarms**, 23 verify, 2 undecided (`f64::max(a, b)` call form has no rule; an inverted
   `if/else` whose both branches carry annotations loses an anchor).
-* **SMT-seed stability** (`tools/stability.py`): all 19 units verify under Z3 random seeds 1–8 (max rlimit 17 M for U5 and
+* **SMT-seed stability** (`tools/stability.py`): all 20 units verify under Z3 random seeds 1–8 (max rlimit 17 M for U5 and
   U11). U1 was restructured around an opaque state predicate with step lemmas after it failed under two seeds; a U11
   lemma was split in three for the same reason.
 * **Seeded property-breaking changes**: §11.
@@ -339,6 +340,18 @@ Misses on first contact and what was strengthened (never by weakening a check):
 | 4 | w4_C17_A (display-width fast path in `fill_inplace`) | no ESC in `fill_inplace`'s alphabet (a bare ESC swallows the following space when the whole line is measured) | bare ESC and a CSI sequence added |
 | 4 | w4_C12_A (ASCII-is-one-column in `break_apart`) | no ASCII control character in force-broken words; Verus undecided (`char::is_ascii` had no spec) | tab added; `char::is_ascii` specified — now a Verus violation as well |
 | 4 | w4_C13_A (`trim_end()` in the shortcut) | coloured texts were single-space-joined with no trailing whitespace | joiners {" ", "  ", "\\n"} × trailing {"", " ", tab, CR, U+3000} |
+
+**Verus on its own** (`tools/seedverus.py`, `seeded/VERUS.json`: each change applied to a scratch copy, only the Verus units run):
+a Verus obligation rejects 42 of the 77 changes; the others end *undecided* in Verus (a new construct without a spec, a
+loop rewritten so that a rewrite rule no longer applies, a lost anchor) or touch code whose contract does not see them
+(`ch_width`'s table — decided by the exhaustive scalar enumeration and Kani K1). Three things raised that share from 29:
+(i) specs for the std functions such edits typically reach for (`str::trim_end` / `trim_start` / `trim`, `char::is_ascii`,
+`u8::is_ascii_whitespace`, `String::with_capacity`; `prelude/std_more.vrs`) — seven seeds replace
+`trim_end_matches(' ')` by `trim_end()`; (ii) the precondition on the line breaker that, with `break_words`, a first line
+narrower than the rest starts with a zero-width fragment (three independent agents weakened that very condition to a
+byte-length comparison); (iii) unit U22 for `options.rs`. Deliberately *not* given a spec: functions whose result
+could only be left unconstrained (`str::contains` with a generic pattern) — an unconstrained guard would turn a harmless
+fast path into an unprovable obligation, i.e. a false alarm instead of an honest *undecided*.
 """)
 open('/verif/DESIGN.md','w').write('\n'.join(out))
 print(len('\n'.join(out).split('\n')),'lines')
